@@ -642,3 +642,48 @@ Theorem ms_loop_err orc t i c script pks sigs :
                      (check_hash_type c (b2n hb) = false \/ check_sig_enc c sg = EncErr)) \/
   (exists pk, In pk pks /\ check_pubkey_enc c pk = false).
 Proof. rewrite ms_loop_initial. apply ms_struct_err. Qed.
+
+(** ** the table for the 64 subsets, the refutation of the unconditional sigops_ok, and example data *)
+Definition flags_of (strictenc dersig lows nulldummy nullfail forkid : bool) : ctx :=
+  let bit (b : bool) (k : N) := if b then N.shiftl 1 k else 0%N in
+  mkCtx (normalise_flags (N.lor (bit strictenc F_STRICTENC) (N.lor (bit dersig F_DERSIG) (N.lor (bit lows F_LOWS)
+          (N.lor (bit nulldummy F_STRICTMULTISIG) (N.lor (bit nullfail F_NULLFAIL) (bit forkid F_FORKID)))))))
+        true 0 1 0 false.
+
+Lemma flag_table_64 : forall se de lo nd nf fk,
+  let c := flags_of se de lo nd nf fk in
+  hard c HashTypeUndefined = (se || fk) /\
+  hard c ForkIdBit = ((se || fk) && negb fk) /\
+  hard c NoForkIdBit = fk /\
+  hard c NotStrictDER = (de || lo || se || fk) /\
+  hard c HighS = lo /\
+  hard c PubKeyShape = (se || fk) /\
+  hard c VerifyFails = nf /\
+  hard c Unparsable = nf.
+Proof. intros [|] [|] [|] [|] [|] [|]; vm_compute; repeat split. Qed.
+
+Definition bad_tx : tx := mkTx 1 [mkInput [] 0 [] 0 0 None] [] 0.
+Definition any_oracle : sig_oracle := mkOracle (fun _ => true) (fun _ _ => true) (fun _ _ _ _ => Some true).
+(** a transaction whose input has no previous txid does not survive Tx.Clone's re-parse (log.Fatal in Go) *)
+Lemma sigops_ok_unconditional_refuted : exists orc t i, ~ sigops_ok (mk_sigops orc t i).
+Proof.
+  exists any_oracle, bad_tx, 0%N. intros H.
+  destruct (H (mkCtx 0 true 0 1 0 false) (mkSt [[x02]; [x30; x01]] [] [] [] 0 0 false []) 0%nat false) as [Hp _].
+  apply Hp. vm_compute. reflexivity.
+Qed.
+
+Definition ex_tx : tx :=
+  mkTx 1 [mkInput (repeat_byte 32 xab) 3 [x51] 4294967295 5000 (Some [x76; xa9; x88; xac]);
+          mkInput (repeat_byte 32 xcd) 0 [] 7 1 (Some [])]
+         [mkOutput 1000 [x6a]] 0.
+
+Lemma matching_hypotheses_example :
+  oracle_total any_oracle /\
+  Forall (key_well_encoded (flags_of false false false false false false)) [[x02]] /\
+  Forall (sig_well_encoded ex_tx 1 (flags_of false false false false false false) []) [[x30; x01]].
+Proof.
+  split; [intros pk h sg der; discriminate|]. split; [repeat constructor|].
+  constructor; [|constructor]. unfold sig_well_encoded. cbn [split_last rev app].
+  split; [reflexivity|]. split; [reflexivity|].
+  eexists. eexists. split; [reflexivity|]. vm_compute. reflexivity.
+Qed.
